@@ -3,6 +3,7 @@ package simrt
 import (
 	"fmt"
 	"reflect"
+	"sort"
 	"sync"
 	"unsafe"
 )
@@ -410,4 +411,21 @@ func Step(site string) {
 type pooled struct {
 	x     any
 	clock vclock
+}
+
+// MapKeys returns the keys of m in the order a range statement of instrumented code visits
+// them: sorted by their printed form, then rotated by a value the plan determines. Go's own
+// map iteration order is random per range statement; with pre-emption points inside loop
+// bodies it would leak into the event order and break replay.
+func MapKeys[K comparable, V any](m map[K]V) []K {
+	keys := make([]K, 0, len(m))
+	for k := range m {
+		keys = append(keys, k)
+	}
+	sort.Slice(keys, func(i, j int) bool { return fmt.Sprint(keys[i]) < fmt.Sprint(keys[j]) })
+	if k := Current; k != nil && len(keys) > 1 && k.Plan != nil {
+		r := (len(k.Plan.Schedule) + len(k.Plan.Ops)) % len(keys)
+		keys = append(keys[r:], keys[:r]...)
+	}
+	return keys
 }
